@@ -10,6 +10,8 @@
   leaf chain: each leaf's `next` is its in-order successor, the last one's is nil.
 -/
 import Gobptree.Proofs.RunOk
+import Gobptree.Proofs.Scan
+import Gobptree.Proofs.SpecSorted
 
 namespace Gobptree
 
@@ -55,8 +57,33 @@ theorem C08_root_leaf (t : Tree K V) (hd : t.depth = 0) (hinv : TreeInv lt t) :
   obtain ⟨⟨a, b, c, _, _⟩, hL⟩ := hinv
   exact ⟨root, rfl, a, b, c, hL⟩
 
+/-- **C08, unpacked: the leaves.** In a tree satisfying the invariant every leaf has strictly
+    ascending keys and as many values as keys, and (unless the tree is a single root leaf)
+    at least `order/2` entries; the leaf chain visits the leaves in order: each leaf's
+    `next` is the identity of the following leaf and the last one's is nil. -/
+theorem C08_leaves_and_chain (h : SWO lt) (t : Tree K V) (hinv : TreeInv lt t) :
+    (∀ l ∈ Node.leaves t.root, Sorted lt l.keys ∧ l.keys.length = l.vals.length ∧
+      (t.depth ≠ 0 → t.order / 2 ≤ l.keys.length)) ∧
+    ChainList (Node.leaves t.root) none := by
+  obtain ⟨hw, hL⟩ := hinv
+  exact ⟨WF_leaves h hw, (Linked_chainList h hw hL).1⟩
+
+/-- **C08, index and chain agree on the contents.** After every history the in-order
+    contents (what the leaf chain enumerates) are strictly ascending in the key order and are
+    exactly the specification's map — the same map every index lookup answers from (C01). -/
+theorem C08_contents_sorted (hp : ParamsOk lt P) (h4 : 4 ≤ P.order) (ops : List (Op K V)) :
+    ∃ (t' : Tree K V) (outs : List (Out V)),
+      (Tree.new P.order : Tree K V).run P ops = .ok (t', outs) ∧ KSorted lt t'.abs := by
+  obtain ⟨hinv, hnil⟩ := new_ok (lt := lt) (K := K) (V := V) P.order
+  obtain ⟨t', heq, _, _, hp'⟩ := run_ok hp ops (Tree.new P.order) rfl hinv (fun _ _ _ => h4)
+  refine ⟨t', _, heq, ?_⟩
+  rw [Tree.abs_eq_pairs, hp', hnil]
+  exact Spec.run_sorted hp.swo ops [] List.Pairwise.nil
+
 end Gobptree
 
+#print axioms Gobptree.C08_leaves_and_chain
+#print axioms Gobptree.C08_contents_sorted
 #print axioms Gobptree.C08_shape_seq
 #print axioms Gobptree.C08_order2_partial
 #print axioms Gobptree.C08_step_preserves
